@@ -2,6 +2,7 @@ package c19
 
 import (
 	"strings"
+	"time"
 
 	"pgregory.net/rapid"
 )
@@ -15,7 +16,10 @@ var (
 	poolDecs   = []string{"0.5", "2.5", "7.0", "10.25"}
 	poolTexts  = []string{"alice", "bob", "Tx", "NewBlock", "x/y", "a b", "", "al", "carol/7", "Tom"}
 	poolDates  = []string{"2019-12-31", "2020-01-01", "2021-06-15"}
-	poolTimes  = []string{"2020-01-01T00:00:00Z", "2021-06-15T12:30:00+02:00", "2019-12-31T23:59:59Z"}
+	// instants (UTC seconds); every use renders them anew with a drawn UTC offset (and, in event values, a drawn
+	// precision), so that one instant meets itself in several spellings, and dates meet their own midnight
+	poolInstants = []string{"2020-01-01T00:00:00Z", "2021-06-15T10:30:00Z", "2019-12-31T23:59:59Z", "2021-06-15T00:00:00Z"}
+	poolOffsets  = []int{0, 0, 120, -300, 330, -60}
 	poolSubstr = []string{"al", "o", "/", " ", "x", "Block", ""}
 )
 
@@ -36,10 +40,31 @@ func genValueOfKind(t *rapid.T, kind string) string {
 		if rapid.Bool().Draw(t, "isdate") {
 			return rapid.SampledFrom(poolDates).Draw(t, "vdate")
 		}
-		return rapid.SampledFrom(poolTimes).Draw(t, "vtime")
+		return genTimeText(t, true)
 	default:
 		return rapid.SampledFrom(poolTexts).Draw(t, "vtext")
 	}
+}
+
+// genTimeText renders a pool instant in a drawn offset. Values may carry fractional seconds (".000" keeps the
+// instant, ".5" is half a second later); operands of the query grammar never do.
+func genTimeText(t *rapid.T, value bool) string {
+	inst, _ := instantOf(rapid.SampledFrom(poolInstants).Draw(t, "instant"))
+	off := rapid.SampledFrom(poolOffsets).Draw(t, "offset")
+	z := rapid.Bool().Draw(t, "z")
+	frac := 0
+	if value {
+		switch rapid.SampledFrom([]string{"", "", "", ".000", ".5", ".000000000"}).Draw(t, "frac") {
+		case ".000":
+			frac = 3
+		case ".000000000":
+			frac = 9
+		case ".5":
+			frac = 1
+			inst = inst.Add(500 * time.Millisecond)
+		}
+	}
+	return renderInstant(inst, off, z, frac)
 }
 
 func genValueFor(t *rapid.T, key string) string {
@@ -103,7 +128,7 @@ func genCond(t *rapid.T, keys []string) gcond {
 			c.Kind, c.Lit = "baddate", "2020-19-39" // grammatical, but no calendar date
 		}
 	case "time":
-		c.Kind, c.Op, c.Lit = "time", rapid.SampledFrom(cmpOps).Draw(t, "op"), rapid.SampledFrom(poolTimes).Draw(t, "lit")
+		c.Kind, c.Op, c.Lit = "time", rapid.SampledFrom(cmpOps).Draw(t, "op"), genTimeText(t, false)
 	}
 	return c
 }
@@ -130,7 +155,10 @@ func condFromEvent(t *rapid.T, key, v string) gcond {
 	case reDate.MatchString(v):
 		c.Kind, c.Lit, c.Op = "date", v, rapid.SampledFrom([]string{"=", ">=", "<="}).Draw(t, "dop")
 	case reTime.MatchString(v):
-		c.Kind, c.Lit, c.Op = "time", v, rapid.SampledFrom([]string{"=", ">=", "<="}).Draw(t, "dop")
+		// the same instant (to the second), spelled with an offset of its own
+		inst, _ := instantOf(v)
+		off := rapid.SampledFrom(poolOffsets).Draw(t, "doff")
+		c.Kind, c.Lit, c.Op = "time", renderInstant(inst.Truncate(time.Second), off, rapid.Bool().Draw(t, "dz"), 0), rapid.SampledFrom([]string{"=", "=", ">=", "<="}).Draw(t, "dop")
 	default:
 		switch rapid.IntRange(0, 2).Draw(t, "dshape") {
 		case 0:
